@@ -144,6 +144,11 @@ package config
 // checks (C02/C03), PREF64 prefix validation (C03).
 //@ macro epochOK(e) = e != timeZero && timeSane(e)
 //@ macro stage(ps, r) = forall(k, 0, len(ps), ps[k].tag != 0 && ps[k].val < brk && pluginCfgOK(ps[k]) && pluginRank(dyn(ps[k])) <= r) && forall(a, 0, len(ps), forall(b, a + 1, len(ps), pluginRank(dyn(ps[a])) <= pluginRank(dyn(ps[b]))))
+// Separation (C01): every plugin object of a parsed interface is allocated by
+// that parse, so no two interfaces (not even two names of one group stanza)
+// share a plugin: Prepare of one cannot change what another advertises.
+//@ macro freshPlugins(ps) = forall(jf, 0, len(ps), fresh(ps[jf]))
+//@ macro sepPlugins(p, q) = forall(is, 0, len(p), forall(js, 0, len(q), p[is].val != q[js].val))
 //@ macro pref64Len(b) = b == 96 || b == 64 || b == 56 || b == 48 || b == 40 || b == 32
 
 //@ func parseRDNSS$1
@@ -154,18 +159,30 @@ package config
 //@   requires G1: sentinelsOK() && epochOK(epoch) && secs(4) <= maxInterval && maxInterval <= secs(1800)
 //@   assigns new heap(plugin.Prefix), new heap(plugin.Route), new heap(plugin.RDNSS), new heap(plugin.DNSSL), new heap(plugin.MTU), new heap(plugin.LLA), new heap(plugin.CaptivePortal), new heap(plugin.PREF64), new heap(ndp.PREF64), new heap(ndp.CaptivePortal), new mem(*plugin.Prefix), new mem(*plugin.Route), new mem(plugin.Plugin), new mem(netip.Addr), new key(MD_Addr_S_empty), new key(MV_Addr_S_empty), new key(MD_Int_S_empty), new key(MV_Int_S_empty)
 //@   loop 1 invariant A1 [C01,C03]: 0 <= rangeindex + 1 && rangeindex + 1 <= len(ifi.Prefixes) && forall(k, 0, len(prefixes), prefixes[k] != nil && prefixes[k] < brk && prefixCfgOK(prefixes[k]))
+//@   loop 1 invariant F1 [C01]: forall(kf, 0, len(prefixes), fresh(prefixes[kf]))
 //@   loop 2 invariant A2 [C01,C03]: 0 <= rangeindex2 + 1 && rangeindex2 + 1 <= len(prefixes) && forall(k, 0, len(prefixes), prefixes[k] != nil && prefixes[k] < brk && prefixCfgOK(prefixes[k]))
+//@   loop 2 invariant F2 [C01]: forall(kf, 0, len(prefixes), fresh(prefixes[kf]))
 //@   loop 3 invariant A3 [C01,C03]: 0 <= rangeindex3 + 1 && rangeindex3 + 1 <= len(prefixes) && 0 <= rangeindex2 + 1 && rangeindex2 + 1 < len(prefixes) && forall(k, 0, len(prefixes), prefixes[k] != nil && prefixes[k] < brk && prefixCfgOK(prefixes[k]))
+//@   loop 3 invariant F3 [C01]: forall(kf, 0, len(prefixes), fresh(prefixes[kf]))
 //@   loop 4 invariant A4 [C01,C03]: 0 <= rangeindex4 + 1 && rangeindex4 + 1 <= len(prefixes) && forall(k, 0, len(prefixes), prefixes[k] != nil && prefixes[k] < brk && prefixCfgOK(prefixes[k])) && stage(plugins, 1)
+//@   loop 4 invariant F4 [C01]: forall(kf, 0, len(prefixes), fresh(prefixes[kf])) && freshPlugins(plugins)
 //@   loop 5 invariant A5 [C01,C03]: 0 <= rangeindex5 + 1 && rangeindex5 + 1 <= len(ifi.Routes) && stage(plugins, 1) && forall(k, 0, len(routes), routes[k] != nil && routes[k] < brk && routeCfgOK(routes[k]))
+//@   loop 5 invariant F5 [C01]: forall(kr, 0, len(routes), fresh(routes[kr])) && freshPlugins(plugins)
 //@   loop 6 invariant A6 [C01,C03]: 0 <= rangeindex6 + 1 && rangeindex6 + 1 <= len(routes) && stage(plugins, 1) && forall(k, 0, len(routes), routes[k] != nil && routes[k] < brk && routeCfgOK(routes[k]))
+//@   loop 6 invariant F6 [C01]: forall(kr, 0, len(routes), fresh(routes[kr])) && freshPlugins(plugins)
 //@   loop 7 invariant A7 [C01,C03]: 0 <= rangeindex7 + 1 && rangeindex7 + 1 <= len(routes) && 0 <= rangeindex6 + 1 && rangeindex6 + 1 < len(routes) && stage(plugins, 1) && forall(k, 0, len(routes), routes[k] != nil && routes[k] < brk && routeCfgOK(routes[k]))
+//@   loop 7 invariant F7 [C01]: forall(kr, 0, len(routes), fresh(routes[kr])) && freshPlugins(plugins)
 //@   loop 8 invariant A8 [C01,C03]: 0 <= rangeindex8 + 1 && rangeindex8 + 1 <= len(routes) && stage(plugins, 2) && forall(k, 0, len(routes), routes[k] != nil && routes[k] < brk && routeCfgOK(routes[k]))
+//@   loop 8 invariant F8 [C01]: forall(kr, 0, len(routes), fresh(routes[kr])) && freshPlugins(plugins)
 //@   loop 9 invariant A9 [C01,C03]: 0 <= rangeindex9 + 1 && rangeindex9 + 1 <= len(ifi.RDNSS) && stage(plugins, 3)
+//@   loop 9 invariant F9 [C01]: freshPlugins(plugins)
 //@   loop 10 invariant A10 [C01,C03]: 0 <= rangeindex10 + 1 && rangeindex10 + 1 <= len(ifi.DNSSL) && stage(plugins, 4)
+//@   loop 10 invariant F10 [C01]: freshPlugins(plugins)
 //@   loop 11 invariant A11 [C01,C03]: 0 <= rangeindex11 + 1 && rangeindex11 + 1 <= len(ifi.PREF64) && stage(plugins, 8) && 0 <= ifi.MTU && ifi.MTU <= 65536
+//@   loop 11 invariant F11 [C01]: freshPlugins(plugins)
 //@   at call NewPREF64(pp, pm): assert X1 [C02,C03]: pfxValid(pp) && addrIs6(pfxAddr(pp)) && !addrIs4In6(pfxAddr(pp)) && pfxMasked(pp) == pp && pref64Len(pfxBits(pp))
 //@   ensures E1 [C01,C03,C17]: result1 == nil ==> stage(result0, 8)
+//@   ensures E3 [C01]: result1 == nil ==> freshPlugins(result0)
 //@   ensures E2 [C02]: result1 == nil ==> 0 <= ifi.MTU && ifi.MTU <= 65536 && (ifi.CaptivePortal == "" || captiveOK(ifi.CaptivePortal))
 //@   ensures E3 [C02]: result1 != nil ==> result0 == nil
 //@   opt safety [C02]
@@ -210,6 +227,7 @@ package config
 //@   ensures E4 [C05]: result1 == nil && !ifi.Monitor ==> validIntervals(result0.MinInterval, result0.MaxInterval)
 //@   ensures E5 [C03,C01,C17]: result1 == nil ==> result0 != nil && fresh(result0) && headerCfgOK(star(result0)) && pluginsCfgOK(result0.Plugins)
 //@   ensures E6 [C02]: result1 != nil ==> result0 == nil
+//@   ensures E7 [C01]: result1 == nil ==> freshPlugins(result0.Plugins)
 //@   opt safety [C02]
 //@   opt frame [C02]
 
@@ -221,10 +239,12 @@ package config
 //@   assigns new heap(config.Interface), new mem(config.Interface), new mem(string), new heap(plugin.Prefix), new heap(plugin.Route), new heap(plugin.RDNSS), new heap(plugin.DNSSL), new heap(plugin.MTU), new heap(plugin.LLA), new heap(plugin.CaptivePortal), new heap(plugin.PREF64), new heap(ndp.PREF64), new heap(ndp.CaptivePortal), new mem(*plugin.Prefix), new mem(*plugin.Route), new mem(plugin.Plugin), new mem(netip.Addr), new key(MD_Addr_S_empty), new key(MV_Addr_S_empty), new key(MD_Int_S_empty), new key(MV_Int_S_empty)
 //@   loop 1 invariant L1 [C02,C03,C05]: 0 <= rangeindex + 1 && rangeindex + 1 <= len(names) && len(ifis) == rangeindex + 1 && (ifis == nil || fresh(ifis)) && (hasName != hasNames) && (hasName ==> len(names) == 1 && names[0] == ifi.Name) && (hasNames ==> names == ifi.Names)
 //@   loop 1 invariant L2 [C02,C03,C05]: forall(k, 0, len(ifis), ifaceResultOK(ifis[k], names[k], ifi)) && (rangeindex + 1 > 0 ==> !(ifi.Monitor && ifi.Advertise)) && len(names) >= 1
+//@   loop 1 invariant L3 [C01]: forall(a, 0, len(ifis), forall(b, a + 1, len(ifis), sepPlugins(ifis[a].Plugins, ifis[b].Plugins)))
 //@   ensures E1 [C02]: result1 == nil ==> ((ifi.Name != "") != (len(ifi.Names) > 0)) && !(ifi.Monitor && ifi.Advertise)
 //@   ensures E2 [C02]: (ifi.Name != "") == (len(ifi.Names) > 0) ==> result1 != nil
 //@   ensures E3 [C02,C03,C05,C01]: result1 == nil ==> len(result0) == ite(ifi.Name != "", 1, len(ifi.Names)) && forall(k, 0, len(result0), ifaceResultOK(result0[k], ite(ifi.Name != "", ifi.Name, ifi.Names[k]), ifi))
 //@   ensures E4 [C02]: result1 != nil ==> result0 == nil
+//@   ensures E5 [C01]: result1 == nil ==> forall(a, 0, len(result0), forall(b, a + 1, len(result0), sepPlugins(result0[a].Plugins, result0[b].Plugins)))
 //@   opt safety [C02]
 //@   opt frame [C02]
 
